@@ -81,6 +81,10 @@ known("C20","invalid-instrumented-module else found outside of an `if` block [*s
 fixed("C22","8aef522","silently-lost * via function-modifier inject_at","special-mode code injected through FunctionModifier::inject_at / add_instr_at was accepted and never resolved (has_special_instr not set)")
 fixed("C22","b1c6560","silently-lost empty-block-alt on * via *","empty_block_alt on a non-block instruction was accepted and silently ignored")
 fixed("C17","8591a43","event func-exit * beside-removed-construct extra","a function-exit probe fired twice per activation when a return / unreachable / throw of the function sat inside a construct removed through a block alternate: the copy of the exit body placed in front of the removed instruction stayed and ran in passing (witness: main = [Block [Ret]], func-exit probe, empty block alternate on the block)")
+known("C20","event semantic-after br* missing-beside-extra-firing-of-another-branch-probe","second symptom of the stale flag: two flagged bodies that meet at one end are lowered as `if flagA {bodyA} else {if flagB {bodyB}}`; when flagA is stale (set by an earlier taken branch, never cleared) bodyA runs again and bodyB of the branch that really arrived is skipped",
+      {"program":"[Block [Block [BrTable A [0,1] 0], BrIf A 0]]","plan":"semantic-after on the outer block, the br_table and the br_if","input":"(2,0): br_table -> inner block (fires, flag stays), br_if taken -> outer end: the br_table's body fires again, the br_if's body does not"})
+known("C16","invalid-instrumented-module else found outside of an `if` block [*semantic-after@br*","the C20 finding seen from C16 (an instrumented module must validate and behave like the original): three or more flagged semantic-after bodies resolved at one end are chained as if/else/else and the module does not validate; a br_table contributes one body per target, so two probed br_tables suffice",
+      {"program":"[Block [BrTable A [0] 1], ... BrTable ...] (two br_tables whose targets meet at one end)","plan":"semantic-after on both br_tables"})
 known("C22","silently-lost semantic-after on br->fn-label via *","a semantic-after injection on an unconditional br whose only target is the function body label is accepted by every API path and absent from the encoded function (same cause as the C20 finding: its body is scheduled after the final end, where after-code is dropped)",
       {"program":"[Block [...], If B [Br 1]] (br to the function label)","mode":"semantic-after","api":"any of the 9 paths"})
 
